@@ -3,6 +3,8 @@ package format
 import (
 	"fmt"
 	"strings"
+	"unicode"
+	"unicode/utf8"
 	"testing"
 
 	vrt "github.com/gotid/god"
@@ -54,8 +56,13 @@ func refApply(casing, w string) string {
 	case "upper":
 		return strings.ToUpper(w)
 	}
-	if w != "" && w[0] >= 'a' && w[0] <= 'z' {
-		return strings.ToUpper(w[:1]) + w[1:]
+	// title: the word's first letter in title case, the rest untouched (non-ASCII letters
+	// included; a caseless first rune leaves the word as it is)
+	for _, r := range w {
+		if unicode.IsLower(r) {
+			return string(unicode.ToTitle(r)) + w[len(string(r)):]
+		}
+		break
 	}
 	return w
 }
@@ -86,7 +93,7 @@ func refRender(tpl, id string) (string, bool) {
 // ---- enumeration -------------------------------------------------------------------
 
 func identifiers(maxLen int) []string {
-	alpha := []string{"a", "z", "A", "Z", "_", "1"}
+	alpha := []string{"a", "z", "A", "Z", "_", "1", "é", "世"}
 	out := []string{""}
 	level := []string{""}
 	for l := 1; l <= maxLen; l++ {
@@ -123,7 +130,7 @@ func TestVerifNamingFormat(t *testing.T) {
 	defer vrt.WriteReport()
 	maxLen := 5
 	if vrt.Thorough() {
-		maxLen = 7
+		maxLen = 6
 	}
 	ids := identifiers(maxLen)
 	tpls := templates()
@@ -160,6 +167,10 @@ func TestVerifNamingFormat(t *testing.T) {
 			}
 			if ok != (err == nil) {
 				c.Violation(in, "accept/reject", fmt.Sprintf("error=%v, reference valid=%v", err, ok))
+				continue
+			}
+			if ok && !utf8.ValidString(got) {
+				c.Violation(in, "encoding", fmt.Sprintf("result %q is not valid UTF-8", got))
 				continue
 			}
 			if ok && got != want {
